@@ -3,7 +3,7 @@
     [classify_global]/[transform] = transformer.py's scope rule, evaluator [eval] with
     fuel for calls, the modelx world [Wo] and the exported world [Wt], memo tables). *)
 From Coq Require Import List String ZArith Bool.
-From MX Require Import Export.Model Export.Proofs Export.Examples.
+From MX Require Import Export.Model Export.Proofs Export.Examples Export.Run Export.RunProofs.
 Import ListNotations.
 
 (** the symtable rule: a name occurrence is global iff no enclosing function /
@@ -62,3 +62,15 @@ Theorem C15_hypotheses_satisfiable :
               /\ call_cells 5 (Wt M0) 0 "foo" [VInt 2] = Ok (VInt 50).
 Proof. exact (conj M0_ok (conj M0_foo_model M0_foo_exported)). Qed.
 Print Assumptions C15_hypotheses_satisfiable.
+
+(** bridge to the implementation: the correspondence check evaluates the decidable
+    [model_okb] on the tables dumped from every real model (namespaces, formulas,
+    ItemSpaces, and what the exporter hands to FormulaTransformer).  It implies the
+    hypothesis [model_ok]; hence for such a model, for every cells, all closure-free
+    arguments and any fuel, the exported world returns the value the model returns. *)
+Theorem C15_checked_model_sound : forall tbl bi, model_okb tbl bi = true ->
+  forall n s nm args v, forallb fo args = true -> fo v = true ->
+  call_cells n (Wo (mk_model tbl bi)) s nm args = Ok v ->
+  call_cells n (Wt (mk_model tbl bi)) s nm args = Ok v.
+Proof. exact checked_model_sound. Qed.
+Print Assumptions C15_checked_model_sound.
